@@ -20,6 +20,7 @@ import (
 	ssrtsp "github.com/bluenviron/mediamtx/internal/staticsources/rtsp"
 	sssrt "github.com/bluenviron/mediamtx/internal/staticsources/srt"
 	sswebrtc "github.com/bluenviron/mediamtx/internal/staticsources/webrtc"
+	"github.com/bluenviron/mediamtx/internal/verifhook"
 )
 
 const (
@@ -264,9 +265,11 @@ func (s *Handler) run() {
 			recreateTimer = time.NewTimer(retryPause)
 
 		case req := <-s.chInstanceSetReady:
+			verifhook.Point("staticsources.handler.beforeSetReady")
 			s.Parent.StaticSourceHandlerSetReady(s.ctx, req)
 
 		case req := <-s.chInstanceSetNotReady:
+			verifhook.Point("staticsources.handler.beforeSetNotReady")
 			s.Parent.StaticSourceHandlerSetNotReady(s.ctx, req)
 
 		case newConf := <-s.chReloadConf:
